@@ -200,6 +200,8 @@ type State struct {
 	impl map[string][]string
 	// unsupported is set when the path met a construct outside the fragment.
 	unsupported string
+	// defers: pending deferred calls (all frames; a frame runs its own at RunDefers)
+	defers []deferRec
 }
 
 func newState() *State {
@@ -209,7 +211,8 @@ func newState() *State {
 func (s *State) clone() *State {
 	n := &State{terms: make(map[string]iset, len(s.terms)), atoms: make(map[string]bool, len(s.atoms)),
 		mem: make(map[string]AV, len(s.mem)), env: make(map[ssa.Value]AV, len(s.env)),
-		epoch: s.epoch, iter: s.iter, splits: s.splits, depth: s.depth, unsupported: s.unsupported}
+		epoch: s.epoch, iter: s.iter, splits: s.splits, depth: s.depth, unsupported: s.unsupported,
+		defers: append([]deferRec(nil), s.defers...)}
 	for k, v := range s.terms {
 		n.terms[k] = v
 	}
